@@ -19,6 +19,8 @@ class Entry:
     def data(self):
         z = self._z
         raw = z.b[self.data_start:self.data_end]
+        if self.usize == 0 and self.data_start == self.data_end:
+            return b""
         if self.method == 0:
             out = raw
         elif self.method == 8:
@@ -29,6 +31,7 @@ class Entry:
                 raise ZipError("inflate: %s" % e)
             if not d.eof:
                 raise ZipError("deflate stream truncated")
+            # bytes of the member area after the end of the deflate stream are not content
         else:
             raise ZipError("unsupported method %d" % self.method)
         if len(out) != self.usize:
@@ -103,12 +106,17 @@ class Zip:
                         lho = struct.unpack_from("<Q", x, q)[0]
                 x = x[4 + hl:]
             e.method, e.flags, e.crc, e.csize, e.usize, e.lho = method, flags, crc, csize, usize, lho
+            if e.name.endswith(b"/") or (usize == 0 and csize == 0):
+                # nothing to read: a reader never visits the local header of an empty member
+                e.data_start = e.data_end = e.rec_end = min(lho, end)
+                self.entries.append(e)
+                continue
             if b[lho:lho + 4] != b"PK\x03\x04" or lho + 30 > end:
                 raise ZipError("no local header for %r" % e.name)
             lnl, lxl = struct.unpack_from("<HH", b, lho + 26)
             e.data_start = lho + 30 + lnl + lxl
-            e.data_end = e.data_start + csize
-            if e.data_end > end:
+            e.data_end = min(e.data_start + csize, end)       # a deflate stream is self-terminating; stored data needs the exact size
+            if e.data_start > end:
                 raise ZipError("member data overruns file")
             e.rec_end = e.data_end
             self.entries.append(e)
@@ -152,6 +160,8 @@ class Zip:
         returns a sorted tuple; duplicates are kept (a duplicate name is a different archive)"""
         out = []
         for e in self.entries:
+            if e.name.endswith(b"/"):
+                continue        # directory entries carry no content for any standard reader and are not signed by JAR/OPC
             c = e.data()
             if zlib.crc32(c) & 0xffffffff != e.crc:
                 raise ZipError("crc mismatch for %r" % e.name)
